@@ -82,6 +82,7 @@ func runC08(r *Run) {
 		c08EndToEnd(r)
 	}
 	c08SlowStats(r)
+	c08ExpiresMidSend(r)
 }
 
 func c08Pure(r *Run) {
